@@ -149,13 +149,14 @@ func propC02(c *Ctx) {
 			c.Check("R2.2", fmt.Sprintf("Converge/return-nil#%d←commit", i+1), instrPos(r), guardedByEdges(conv, r, commitNil),
 				"every path to `return nil` passes Commit of the write transaction with its error tested nil")
 		}
-		updErr, _ := errResult(upd)
-		insErr, _ := errResult(ins)
+		// path-sensitive (pathsens.go): on every feasible path to the site the
+		// call has been executed and its error is known nil
+		pf := newPathFacts(conv)
 		for i, cm := range commits {
-			ok := updErr != nil && testedNilBefore(updErr, cm) && dominatesInstr(upd, cm)
+			ok, _ := pf.SucceededBefore(upd, cm)
 			c.Check("R2.2", fmt.Sprintf("Converge/commit#%d←update", i+1), instrPos(cm), ok, "Commit of the write transaction is reached only after update returned nil")
 		}
-		ok := insErr != nil && testedNilBefore(insErr, upd) && dominatesInstr(ins, upd)
+		ok, _ := pf.SucceededBefore(ins, upd)
 		c.Check("R2.2", "Converge/update←insert", upd.Pos(), ok, "the cursor insert is reached only after the row insert returned nil")
 		// no write site after commit
 		writers := m.writers(sites)
